@@ -35,8 +35,12 @@ def _logical(raw, kind):
 
 
 def replay(spec, steps, nobj, rnd=None, missing_init=False, observe=False, write_concern=False,
-           want=("ret", "raw", "nowrite", "family")):
-    """Returns (problems, steps_executed, diverged)."""
+           want=("ret", "raw", "nowrite", "family"), buffered=False):
+    """Returns (problems, steps_executed, diverged).  buffered=True: the whole history runs inside
+    Class.buffer_backend() (histories without outside writes only): results must be the same, the file is
+    compared with the model document after the context has exited (C05 / C06 with child handles)."""
+    if buffered:
+        return _replay_buffered(spec, steps, nobj, rnd, want)
     problems = []
     init = steps[0]
     assert init["a"] == "init"
@@ -197,3 +201,72 @@ class Graph:
             cur = prev
         labs.reverse()
         return cur, labs
+
+
+def _replay_buffered(spec, steps, nobj, rnd, want):
+    problems = []
+    res = spec.new_resource()
+    env.reset_class_state()
+    ctx = None
+    executed = 0
+    try:
+        doc0 = val.to_py(steps[0]["doc"])
+        res.write_raw(copy.deepcopy(doc0))
+        objs = {h: res.new_object() for h in range(1, nobj + 1)}
+        owner = {h: h for h in objs}           # which root object a handle belongs to
+        first_toucher = None
+        pre_nav = rnd.random() < 0.5 if rnd else False
+        model_doc = doc0
+        ctx = spec.cls.buffer_backend()
+        ctx.__enter__()
+        for n, st in enumerate(steps[1:], 1):
+            a = st["a"]
+            executed = n
+            if a == "ext":
+                break
+            if a == "drop":
+                objs.pop(st["h"], None)
+                continue
+            target = objs.get(st["h"])
+            if target is None:
+                break
+            if first_toucher is None:
+                first_toucher = owner[st["h"]]
+            if a == "nav":
+                try:
+                    child = _nav(target, st["s"], 0, spec)
+                except Exception as e:  # noqa: BLE001
+                    problems.append({"aspect": "ret", "step": n, "detail": f"navigation {st['s']} failed inside the buffered context: {e!r}"})
+                    break
+                if child is None or not hasattr(child, "_to_base"):
+                    problems.append({"aspect": "ret", "step": n, "detail": f"navigation {st['s']} returned {child!r}"})
+                    break
+                objs[st["h2"]] = child
+                owner[st["h2"]] = owner[st["h"]]
+                continue
+            o = st["op"]
+            obs = realize.perform(target, o, 0)
+            ok, why = realize.matches(obs, st["ret"])
+            if not ok:
+                if o["op"] == "popitem" and obs[0] == "ret":
+                    return problems, n, True
+                problems.append({"aspect": "ret", "step": n, "handle_owner": owner[st["h"]], "first_toucher": first_toucher,
+                                 "child_handle": st["h"] > nobj, "detail": "inside buffer_backend(): " + why})
+                break
+            model_doc = val.to_py(st["doc"])
+        ctx.__exit__(None, None, None)
+        ctx = None
+        if not problems:
+            raw = res.read_raw()
+            if not (raw is env.MISSING and model_doc in ({}, [])) and not val.same_typed(raw, model_doc):
+                problems.append({"aspect": "raw", "step": executed, "first_toucher": first_toucher,
+                                 "detail": f"after leaving buffer_backend() the backend holds {raw!r}, expected {model_doc!r}"})
+        return problems, executed, False
+    finally:
+        if ctx is not None:
+            try:
+                ctx.__exit__(None, None, None)
+            except Exception:  # noqa: BLE001
+                pass
+        env.reset_class_state()
+        res.dispose()
